@@ -125,7 +125,7 @@ func TestVerifC10E2E(t *testing.T) {
 	r := vfNewRand(vfSeed())
 	nc := 2
 	if vfTier() == "thorough" {
-		nc = 12
+		nc = 8
 	}
 	tmp, err := os.MkdirTemp(os.Getenv("VERIF_TMP"), "c10e-")
 	if err != nil {
